@@ -34,3 +34,10 @@ impl Hash for u64 {
 
 // std::hash::BuildHasher::hash_one
 pub open spec fn hash_one_spec<T: Hash>(bid: int, t: &T) -> u64 { hash_fn(bid, t.words()) }
+
+// std: `impl<T: Hash + ?Sized> Hash for &T` forwards to T
+impl<T: Hash> Hash for &T {
+    open spec fn words(&self) -> Seq<int> { (**self).words() }
+    #[verifier::external_body]
+    fn hash<H: Hasher>(&self, state: &mut H) { unimplemented!() }
+}
